@@ -3,7 +3,7 @@
 (* TLC as evaluator: writes every label program of the AsmProgs space      *)
 (* together with what the model of Program.Assemble makes of it, one JSON  *)
 (* record per line, for replay against the real builder (asmreplay).       *)
-(* Every Stride-th program (offset Offset) is written.                     *)
+(* One program of every Stride consecutive ones is written.                *)
 (***************************************************************************)
 EXTENDS AsmProgs, Json, SequencesExt
 CONSTANTS OutFile, Stride, Offset
@@ -17,7 +17,8 @@ Case(p) ==
    model |-> [err |-> a.err,
               out |-> IF a.err = "" THEN [i \in 1..Len(a.insts) |-> OutInst(a.insts[i])] ELSE <<>>]]
 All == SetToSeq(Progs(0))
-Picked == SelectSeq([i \in 1..Len(All) |-> i], LAMBDA i : i % Stride = Offset)
+\* one program of every block of Stride consecutive ones, its place rotating from block to block (see CompileGen!Picked)
+Picked == SelectSeq([i \in 1..Len(All) |-> i], LAMBDA i : (i + (i \div Stride)) % Stride = Offset)
 Cases == [n \in 1..Len(Picked) |-> Case(All[Picked[n]])]
 ASSUME ndJsonSerialize(OutFile, Cases)
 ASSUME PrintT(<<"exported", Len(Cases), "of", Len(All)>>)
